@@ -49,7 +49,8 @@ ASSUMPTIONS = [
     "value-class acceptance (_check_value_class) is modelled on the implementation's per-class verdicts "
     "(Model/ValValue.v, correspondence on every value tag met); the expected verdict of the ORACLE is computed from the "
     "XML reading + class_regex.json with python re, independently of hed-python",
-    "definition NAMES are an input dimension of the generator (ASCII, plain non-ASCII, letters whose lower() differs "
+    "definition SHAPES (no contents, one tag, one group, nested groups, with/without placeholder) and definition NAMES "
+    "are input dimensions of the generator (ASCII, plain non-ASCII, letters whose lower() differs "
     "from casefold(); modern-character schemas only) and the definitions reach the validator through two entry points "
     "(DefinitionDict via HedString.validate, strings via HedValidator) whose verdicts must coincide; the lookup itself "
     "is a fact of the definition layer (tf_def_known / tf_def_contents), so this is tested, not proved, at C01 level",
@@ -110,7 +111,7 @@ def ctx(key, defs_extra=False):
         V = G.Vocab(X.schema_for_use(key, allsch))
         dd = None
         if V.has_defs:
-            def_strings = G.DEFS + (G.NAME_DEFS if V.modern else []) + (G.DEFS_F1 if defs_extra else [])
+            def_strings = G.DEFS + G.SHAPE_DEFS + (G.NAME_DEFS if V.modern else []) + (G.DEFS_F1 if defs_extra else [])
             dd = DefinitionDict(def_strings, sch)
             if dd.issues:
                 raise RuntimeError(f"definitions rejected for {key}: {dd.issues[:2]}")
@@ -530,6 +531,16 @@ def value_and_sequence_cases(tier, seed, keys, plain_cases):
                                  + ":accepted_by_%d" % meta["accepted_by"]))
         if not V.has_defs:
             continue
+        for item, exp, rule in G.def_shape_cases(rng, V, 50 if tier == "quick" else 300):
+            ph = rng.random() < 0.5
+            tree = G.Builder(rng, V, ph).tree(rng.randint(0, 2)) if rng.random() < 0.6 else []
+            tgt = tree
+            if tree and rng.random() < 0.35:
+                grp = [x for x in tree if isinstance(x, list) and not any(
+                    isinstance(y, str) and y.split("/")[0].casefold() in G.SPECIAL_NAMES for y in x)]
+                tgt = rng.choice(grp) if grp else tree
+            tgt.insert(rng.randint(0, len(tgt)), item)
+            out.append(dict(schema=key, text=G.render(tree, rng), ph=ph, expect=exp, rule=rule))
         if V.modern:
             for item, exp, rule in G.name_cases(rng, V, 60 if tier == "quick" else 300):
                 ph = rng.random() < 0.5
